@@ -95,6 +95,17 @@ func (h *indexedHeap) remove(idx int, key string) (string, uint) {
 	return h.removeInternal(realIdx)
 }
 
+// Remove the record of a key whose item is not at hand (the storage let go of it - its own TTL, an eviction - before
+// the middleware saw it expire): the record is found by its key.
+func (h *indexedHeap) removeKey(key string) (string, uint) {
+	for i := range h.entries {
+		if h.entries[i].key == key {
+			return h.removeInternal(i)
+		}
+	}
+	return "", 0
+}
+
 // Remove entry with lowest expiration time
 func (h *indexedHeap) removeFirst() (string, uint) {
 	return h.removeInternal(0)
